@@ -24,6 +24,12 @@ func init() {
 			"the correctness of the admissibility tests as values.",
 		Run: runC03,
 		Mutants: []Mutant{
+			{Name: "namespace-list-error-ignored", File: "internal/k8s/controllers/pool_controller.go",
+				Old: "\t\tlevel.Error(r.Logger).Log(\"controller\", \"ConfigReconciler\", \"message\", \"failed to get namespaces\", \"error\", err)\n\t\treturn ctrl.Result{}, err\n", New: "\t\tlevel.Error(r.Logger).Log(\"controller\", \"ConfigReconciler\", \"message\", \"failed to get namespaces\", \"error\", err)\n", Expect: "FETCH-CHECKED"},
+			{Name: "service-get-error-tested-on-other-variable", File: "internal/k8s/controllers/service_controller.go",
+				Old: "\terr := r.Get(ctx, name, &res)\n\tif apierrors.IsNotFound(err) {", New: "\tvar err error\n\tif err := r.Get(ctx, name, &res); apierrors.IsNotFound(err) {", Expect: "FETCH-CHECKED"},
+			{Name: "full-pass-from-a-service-event", File: "internal/k8s/controllers/service_controller.go",
+				Old: "\tif !isReloadReq(req) {\n\t\treturn r.reconcileService(ctx, req)\n\t}", New: "\tif !isReloadReq(req) && r.initialLoadPerformed {\n\t\treturn r.reconcileService(ctx, req)\n\t}", Expect: "RELOAD-ONLY"},
 			{Name: "tenant-set-dropped-on-pool-counter", File: "internal/allocator/allocator.go",
 				Old: "\t\tif a.poolIPsInUse[al.pool][ip.String()] == 0 {\n\t\t\tdelete(a.poolIPsInUse[al.pool], ip.String())\n",
 				New: "\t\tif a.poolIPsInUse[al.pool][ip.String()] == 0 {\n\t\t\tdelete(a.poolIPsInUse[al.pool], ip.String())\n\t\t\tdelete(a.servicesOnIP, ip.String())\n", Expect: "delete-servicesOnIP"},
@@ -99,6 +105,8 @@ func c03Reasons(f *chk.Fn, g *chk.Graph, lbIPs types.Object) []chk.Guard {
 }
 
 func runC03(p *chk.Prog, r *chk.Report) {
+	c06ReloadOnly(p, r)
+	fetchCheckedRule(p, r)
 	assignCommitsRule(p, r)
 	c03Converge(p, r)
 	c03KeepExisting(p, r)
